@@ -574,8 +574,13 @@ class PathSim:
         elif k == "autodtor":
             st.events.append(Event("dtor", site, e, q=e.get("q"), obj=e["d"], extra=(e["n"], e.get("cls"))))
         elif k == "new":
-            val = ("new", e.get("at"), e.get("l"), st.fresh())
-            st.events.append(Event("new", site, e, val=val))
+            if len(e.get("place", [])) == 1:
+                # placement new: the result is the storage it was given
+                val = self._val(e["place"][0], st)
+                st.events.append(Event("new", site, e, val=val, extra="placement"))
+            else:
+                val = ("new", e.get("at"), e.get("l"), st.fresh())
+                st.events.append(Event("new", site, e, val=val))
         elif k == "delete":
             st.events.append(Event("delete", site, e, val=self._val(e["sub"], st)))
         elif k == "throw":
